@@ -49,6 +49,7 @@ def run(tier, seed, t0):
             Job("debug", "drv_c19", "debug", "nayuki-portable", []),
             Job("optim-fftw", "drv_c19", "optim", "fftw", [])]
     # histories: what the process did before the request (imports of near-default custom sets, other requests, key sets)
+    jobs.append(Job("optim-history9", "drv_c19", "optim", "fftw", ["--history", 9, "--lo", -2, "--hi", 140]))      # garbage collector released between requests
     for h in (6, 7, 8):      # signal state of the application: SIGABRT blocked, ignored, or caught by a handler that returns
         jobs.append(Job("optim-history%d" % h, "drv_c19", "optim", "nayuki-portable" if h == 7 else "spqlios-fma", ["--history", h, "--lo", -20, "--hi", 160]))
     for h in (1, 2, 3, 4, 5):      # 5: earlier requests of the process ran out of memory at their k-th allocation (k = 1..12), caught by the caller
